@@ -3,6 +3,7 @@
 package main
 
 import (
+	"github.com/ghodss/yaml"
 	"context"
 	"crypto/sha256"
 	"encoding/hex"
@@ -289,6 +290,7 @@ type vfCfg struct {
 	EmailDomains   []string
 	Extra          []string // any further raw flags
 	Mut            func(o *options.Options)
+	Alpha          bool // load the same configuration through the alpha (YAML) channel: flags -> converted alpha file -> merge
 	SkipNonce      bool
 	PKCE           string
 	SkipButton     bool
@@ -379,6 +381,11 @@ func vfBuildOptions(cfg *vfCfg) (*options.Options, error) {
 	opts, err := loadLegacyOptions("", pflag.NewFlagSet("verif", pflag.ContinueOnError), cfg.Args())
 	if err != nil {
 		return nil, err
+	}
+	if cfg.Alpha {
+		if opts, err = vfThroughAlpha(opts, cfg.Args()); err != nil {
+			return nil, err
+		}
 	}
 	if cfg.Mut != nil {
 		cfg.Mut(opts)
@@ -567,4 +574,37 @@ func (w *vfWorld) Sleep(d time.Duration) {
 		w.logf("clock", "advance %v", d)
 		time.Sleep(d)
 	}
+}
+
+// vfThroughAlpha re-loads a configuration the way an operator who migrated to the alpha format runs it: the product's own
+// converter (what --convert-config-to-alpha prints) writes the alpha file, the remaining flags are loaded as core options and
+// the file is merged over them (main.go: loadAlphaOptions).
+func vfThroughAlpha(legacy *options.Options, args []string) (*options.Options, error) {
+	alpha := &options.AlphaOptions{}
+	alpha.ExtractFrom(legacy)
+	data, err := yaml.Marshal(alpha)
+	if err != nil {
+		return nil, err
+	}
+	dir, err := os.MkdirTemp("", "vf-alpha-")
+	if err != nil {
+		return nil, err
+	}
+	defer os.RemoveAll(dir)
+	file := filepath.Join(dir, "alpha.yaml")
+	if err := os.WriteFile(file, data, 0o600); err != nil {
+		return nil, err
+	}
+	core := options.NewFlagSet()
+	var rest []string
+	for _, a := range args {
+		name := strings.TrimPrefix(a, "--")
+		if i := strings.IndexByte(name, '='); i >= 0 {
+			name = name[:i]
+		}
+		if core.Lookup(name) != nil {
+			rest = append(rest, a)
+		}
+	}
+	return loadAlphaOptions("", file, pflag.NewFlagSet("verif-alpha", pflag.ContinueOnError), rest)
 }
